@@ -299,6 +299,12 @@ static char *read_tail(const char *path, char *buf, size_t cap)
 	n = fread(buf, 1, cap - 1, f);
 	buf[n] = 0;
 	fclose(f);
+	{
+		/* lead with the sanitizer's own headline if there is one (it may be preceded by warnings and separator lines) */
+		char *e = strstr(buf, "ERROR: ");
+		if (!e) e = strstr(buf, "runtime error:");
+		if (e && e != buf) memmove(buf, e, strlen(e) + 1);
+	}
 	return buf;
 }
 
